@@ -7,13 +7,16 @@ package props
 
 import (
 	"fmt"
+	"math/big"
 	"runtime"
+	"sort"
 	"sync"
 	"sync/atomic"
 	"testing"
 	"time"
 
 	"github.com/bnb-chain/tss-lib/v2/tss"
+	"google.golang.org/protobuf/reflect/protoreflect"
 	"pgregory.net/rapid"
 
 	"verif/harness/ev"
@@ -25,6 +28,10 @@ type c09Case struct {
 	Jitter  []int // per-delivery perturbation choices (cycled)
 	DupPct  int
 	Pollers int
+	// Tamper > 0: one party's message is replaced by an invalid one (the (Tamper-1)-th covered single-field
+	// "+1" cell of the configuration, modulo their number); the concurrent run must then end with the same kind
+	// of result per party (finished / error naming the same culprits / stalled) as sequential delivery.
+	Tamper int `json:",omitempty"`
 }
 
 func genC09(protos []string) func(t *rapid.T) c09Case {
@@ -40,8 +47,45 @@ func genC09(protos []string) func(t *rapid.T) c09Case {
 		c.Jitter = rapid.SliceOfN(rapid.IntRange(0, 9), 8, 40).Draw(t, "jitter")
 		c.DupPct = rapid.SampledFrom([]int{0, 10, 30}).Draw(t, "dup")
 		c.Pollers = rapid.IntRange(1, 3).Draw(t, "pollers")
+		if rapid.IntRange(0, 2).Draw(t, "tampered") == 0 {
+			c.Tamper = 1 + rapid.IntRange(0, 1000).Draw(t, "tamperCell")
+			c.DupPct = 0 // a duplicate of an invalid message is a second invalid delivery: the sequential reference has one
+		}
 		return c
 	}
+}
+
+// c09Kinds runs the tampered configuration sequentially (FIFO) and returns each party's kind of result.
+func c09Kinds(fc faultCase) []string {
+	x := fc.Run.build()
+	fr := &faultRun{x: x, c: fc}
+	fr.install()
+	x.net.Run(sim.FIFO{}, 200000)
+	kinds := make([]string, len(x.net.Nodes))
+	for i, nd := range x.net.Nodes {
+		switch {
+		case nd.Errored():
+			kinds[i] = "error" + fmt.Sprint(culpritSet(x.net, nd.Errs[0]))
+		case nd.Finished():
+			kinds[i] = "finished"
+		default:
+			kinds[i] = "stalled"
+		}
+	}
+	return kinds
+}
+
+func culpritSet(net *sim.Net, err *tss.Error) []int {
+	seen := map[int]bool{}
+	var out []int
+	for _, c := range culpritNodes(net, err) {
+		if !seen[c] {
+			seen[c] = true
+			out = append(out, c)
+		}
+	}
+	sort.Ints(out)
+	return out
 }
 
 func runC09(c c09Case) ev.Outcome {
@@ -51,6 +95,24 @@ func runC09(c c09Case) ev.Outcome {
 	fail := func(sig, f string, a ...interface{}) ev.Outcome {
 		out.Err, out.Sig = fmt.Errorf(f, a...), sig
 		return out
+	}
+	var tamper *faultSpec
+	var want []string
+	if c.Tamper > 0 {
+		var cells []faultCase
+		for _, fc := range enumCells(c.Run, []string{"+1"}, nil, 0, 2) {
+			if coveredFieldKind(fc.F.MsgType, fc.F.Field.Name, "+1") && fc.F.Field.Name != "paillier_n" {
+				cells = append(cells, fc)
+			}
+		}
+		if len(cells) == 0 {
+			out.Skip = true
+			return out
+		}
+		fc := cells[(c.Tamper-1)%len(cells)]
+		tamper = &fc.F
+		want = c09Kinds(fc)
+		out.Label = fmt.Sprintf("concurrent %s pollers=%d tampered=%s.%s", c.Run, c.Pollers, shortType(tamper.MsgType), tamper.Field.Name)
 	}
 	type nodeState struct {
 		inflight int32
@@ -63,8 +125,9 @@ func runC09(c c09Case) ev.Outcome {
 	for i := range st {
 		st[i] = &nodeState{}
 	}
-	var wg sync.WaitGroup
+	var active int64 // party calls (Start / Update) in flight or about to start
 	var seq int64
+	var tampered int32
 	stop := make(chan struct{})
 	done := make(chan struct{})
 	var finishedNodes int32
@@ -78,7 +141,7 @@ func runC09(c c09Case) ev.Outcome {
 		}
 	}
 	deliver := func(to int, bz []byte, from *tss.PartyID, bcast bool, k int64) {
-		defer wg.Done()
+		defer atomic.AddInt64(&active, -1)
 		switch c.Jitter[int(k)%len(c.Jitter)] {
 		case 0, 1, 2:
 			runtime.Gosched()
@@ -102,8 +165,9 @@ func runC09(c c09Case) ev.Outcome {
 		}
 		atomic.AddInt32(&st[to].inflight, -1)
 		if err != nil {
-			atomic.AddInt32(&st[to].errs, 1)
-			st[to].firstErr.Store(err.Error())
+			if atomic.AddInt32(&st[to].errs, 1) == 1 {
+				st[to].firstErr.Store(err)
+			}
 		}
 	}
 	// routers: one per node, forwarding everything the party emits
@@ -125,13 +189,22 @@ func runC09(c c09Case) ev.Outcome {
 					}
 					dests := sim.ResolveDests(net, nd.Idx, m)
 					for _, to := range dests {
+						bz := bz
+						if tamper != nil && nd.Idx == tamper.Deviator && m.Type() == tamper.MsgType && (m.IsBroadcast() || tamper.Recip < 0 || to == tamper.Recip) {
+							if nb, err := rewriteWire(bz, func(pm protoreflect.Message) {
+								setField(pm, tamper.Field, add(new(big.Int).SetBytes(getField(pm, tamper.Field)), 1).Bytes())
+							}); err == nil {
+								bz = nb
+								atomic.AddInt32(&tampered, 1)
+							}
+						}
 						reps := 1
 						k := atomic.AddInt64(&seq, 1)
 						if c.DupPct > 0 && int(k*37%100) < c.DupPct {
 							reps = 2
 						}
 						for r := 0; r < reps; r++ {
-							wg.Add(1)
+							atomic.AddInt64(&active, 1)
 							go deliver(to, bz, nd.ID, m.IsBroadcast(), k+int64(r))
 						}
 					}
@@ -167,12 +240,13 @@ func runC09(c c09Case) ev.Outcome {
 	// Start raced against everything else
 	for _, nd := range net.Nodes {
 		nd := nd
-		wg.Add(1)
+		atomic.AddInt64(&active, 1)
 		go func() {
-			defer wg.Done()
+			defer atomic.AddInt64(&active, -1)
 			if err := nd.P.Start(); err != nil {
-				atomic.AddInt32(&st[nd.Idx].errs, 1)
-				st[nd.Idx].firstErr.Store(err.Error())
+				if atomic.AddInt32(&st[nd.Idx].errs, 1) == 1 {
+					st[nd.Idx].firstErr.Store(err)
+				}
 			}
 		}()
 	}
@@ -181,19 +255,48 @@ func runC09(c c09Case) ev.Outcome {
 		limit = 600 * time.Second
 	}
 	timedOut := false
-	select {
-	case <-done:
-	case <-time.After(limit):
-		timedOut = true
+	kindOf := func(i int) string {
+		if e := st[i].firstErr.Load(); e != nil {
+			return "error" + fmt.Sprint(culpritSet(net, e.(*tss.Error)))
+		}
+		if atomic.LoadInt32(&st[i].results) > 0 {
+			return "finished"
+		}
+		return "stalled"
 	}
-	// let in-flight deliveries (duplicates after completion) finish, then stop routers and pollers
-	waitCh := make(chan struct{})
-	go func() { wg.Wait(); close(waitCh) }()
-	select {
-	case <-waitCh:
-	case <-time.After(60 * time.Second):
+	if tamper == nil {
+		select {
+		case <-done:
+		case <-time.After(limit):
+			timedOut = true
+		}
+	} else {
+		// wait until every party that errs or finishes in the sequential reference has done so (or the limit)
+		deadline := time.Now().Add(limit)
+		for {
+			reached := true
+			for i := range st {
+				if want[i] != "stalled" && kindOf(i) == "stalled" {
+					reached = false
+				}
+			}
+			if reached || time.Now().After(deadline) {
+				break
+			}
+			time.Sleep(20 * time.Millisecond)
+		}
 	}
-	time.Sleep(20 * time.Millisecond)
+	// let in-flight deliveries (duplicates after completion; in a tampered run the parties that are not
+	// affected yet) finish: wait until no call is active and none was started for a while; then stop routers and pollers
+	quietSince := time.Now()
+	for drainEnd := time.Now().Add(120 * time.Second); time.Now().Before(drainEnd); {
+		if atomic.LoadInt64(&active) != 0 {
+			quietSince = time.Now()
+		} else if time.Since(quietSince) > 400*time.Millisecond {
+			break
+		}
+		time.Sleep(10 * time.Millisecond)
+	}
 	close(stop)
 	rwg.Wait()
 	overl := 0
@@ -201,6 +304,26 @@ func runC09(c c09Case) ev.Outcome {
 		if atomic.LoadInt32(&st[i].overlap) == 1 {
 			overl++
 		}
+	}
+	if tamper != nil {
+		out.Nontrivial = overl > 0 && atomic.LoadInt32(&tampered) > 0
+		out.Label += fmt.Sprintf(" overlapped-parties>0=%v", overl > 0)
+		if atomic.LoadInt32(&tampered) == 0 {
+			out.Label = "not-applied " + out.Label
+			return out
+		}
+		for i := range st {
+			if r := atomic.LoadInt32(&st[i].results); r > 1 {
+				return fail("concurrent-results", "party %d emitted %d results", i, r)
+			}
+			if got := kindOf(i); got != want[i] {
+				return fail("concurrent-kind", "%s with %s.%s of party %d altered: party %d ends %q under concurrent delivery but %q under sequential delivery of the same messages (all parties: sequential %v)",
+					c.Run, shortType(tamper.MsgType), tamper.Field.Name, tamper.Deviator, i, got, want[i], want)
+			}
+		}
+		return out
+	}
+	for i := range st {
 		if e := st[i].firstErr.Load(); e != nil {
 			return fail("concurrent-error", "party %d returned an error under concurrent delivery of honest messages: %v", i, e)
 		}
